@@ -165,6 +165,14 @@ def execute(case):
                             else:
                                 add_teardown_callback(mk(i, cb), False)
                         log(ev="reg", cb=i, **{"pass": cb["pass"]})
+                    if sc.get("bogus"):
+                        # a rejected registration: its callback must never run
+                        from asphalt.core import ResourceConflict
+                        ctx.add_resource(B(), "dup")
+                        try:
+                            ctx.add_resource(B(), "dup", teardown_callback=lambda *a: begin(0, a))
+                        except ResourceConflict:
+                            pass
                     if sc["ending"] in ("exc", "base"):
                         x = HExc("blk") if sc["ending"] == "exc" else HBase("blk")
                         x.hid = "blk"
